@@ -28,6 +28,14 @@ class Obj:
         self._rec(tag)
         return 7
 
+    def plain_zero(self, tag):
+        self._rec(tag)
+        return 0  # "must return nothing": a falsy value is still a value
+
+    def plain_empty(self, tag):
+        self._rec(tag)
+        return ""
+
     async def coro(self, tag):
         self._rec(tag)
         await asyncio.sleep(0)
@@ -92,7 +100,10 @@ async def scenario(ctx_rows, burst):
 
         async def call_here():
             t0 = time.monotonic()
-            r = fn(tag)
+            try:
+                r = fn(tag)
+            except Exception as e:
+                return ("callraised", type(e).__name__), time.monotonic() - t0
             if asyncio.isfuture(r) or asyncio.iscoroutine(r):
                 try:
                     r = ("value", await asyncio.wait_for(r, 5))
@@ -100,6 +111,8 @@ async def scenario(ctx_rows, burst):
                     r = ("raised", e.args[0])
                 except asyncio.TimeoutError:
                     r = ("hang",)
+                except Exception as e:  # e.g. a future bound to the wrong loop
+                    r = ("error", type(e).__name__)
             else:
                 r = ("plainret", r)
             return r, time.monotonic() - t0
@@ -115,10 +128,14 @@ async def scenario(ctx_rows, burst):
         rows.append((kind, lookup, caller, 0, f"ran={where}/{loopw} saw={res[0]}:{res[1] if len(res) > 1 and not isinstance(res[1], tuple) else (res[1][1] if len(res) > 1 and res[1] else '')} owner_err={len(errors_on_owner)}"))
         errors_on_owner.clear()
 
-    for kind in ("attr", "plain", "plain_ret", "coro", "coro_raise"):
-        for lookup in ("main", "owner"):
-            for caller in ("main", "owner"):
-                await one(kind, lookup, caller)
+    try:
+        for kind in ("attr", "plain", "plain_ret", "plain_zero", "plain_empty", "coro", "coro_raise"):
+            for lookup in ("main", "owner"):
+                for caller in ("main", "owner"):
+                    await one(kind, lookup, caller)
+    except BaseException:
+        thread.force_stop()  # never leave the owner thread running: the interpreter would wait for it at exit
+        raise
     # ordering of queued plain calls from another loop
     base = tagn[0]
     fn = proxy.plain
@@ -163,6 +180,10 @@ def expect(kind, caller, closed, action):
             return "ran=owner/owner saw=plainret:None owner_err=0"
         if kind == "plain_ret":
             return "ran=owner/owner saw=plainret:7 owner_err=0"
+        if kind == "plain_zero":
+            return "ran=owner/owner saw=plainret:0 owner_err=0"
+        if kind == "plain_empty":
+            return "ran=owner/owner saw=plainret: owner_err=0"
         if kind == "coro":
             return "ran=owner/owner saw=value:" + "TAG" + " owner_err=0"
         return "ran=owner/owner saw=raised:TAG owner_err=0"
@@ -186,7 +207,7 @@ def run(ctx):
         for kind, lookup, caller, closed, obs in rows:
             if kind == "burst":
                 continue
-            mk = {"attr": "attr", "plain": "plain", "plain_ret": "plain", "coro": "coro", "coro_raise": "coro"}[kind]
+            mk = {"attr": "attr", "plain": "plain", "plain_ret": "plain", "plain_zero": "plain", "plain_empty": "plain", "coro": "coro", "coro_raise": "coro"}[kind]
             lines.append(f"c20 {mk} {1 if caller == 'owner' else 0} {closed}")
     model = ctx.driver(lines)
     k = 0
@@ -220,9 +241,9 @@ def run(ctx):
                     bad = f"coroutine result not relayed to the caller: {obs}"
                 if kind == "coro_raise" and "saw=raised:" not in obs:
                     bad = f"coroutine exception not relayed to the caller: {obs}"
-                if kind in ("plain", "plain_ret") and caller == "main" and "saw=plainret:None" not in obs:
+                if kind in ("plain", "plain_ret", "plain_zero", "plain_empty") and caller == "main" and "saw=plainret:None" not in obs:
                     bad = f"plain call from another loop returned something to the caller: {obs}"
-                if kind == "plain_ret" and caller == "main" and "owner_err=1" not in obs:
+                if kind in ("plain_ret", "plain_zero", "plain_empty") and caller == "main" and "owner_err=1" not in obs:
                     bad = f"a plain method returning a value through the proxy was not reported as an error on the owner: {obs}"
             if bad:
                 ctx.violation(bad, {"kind": "proxy", "method": kind, "lookup": lookup, "caller": caller}, {"kind": kind, "lookup": lookup, "caller": caller, "closed": closed, "obs": obs})
@@ -231,7 +252,7 @@ def run(ctx):
                 got = re.sub(r"(value|raised):\d+", r"\1:TAG", obs)
                 if want != got:
                     ctx.corr_diff(f"proxy behaviour differs for {kind} (lookup {lookup}, caller {caller}, closed {closed})", {"kind": kind, "lookup": lookup, "caller": caller}, got, f"{action} => {want}")
-    ctx.cov["rule"] = (f"{rounds} rounds with fresh threads: non-callable / plain / plain-returning / coroutine / raising coroutine x attribute looked up on the caller's or the owner's loop x called from the caller's "
+    ctx.cov["rule"] = (f"{rounds} rounds with fresh threads: non-callable / plain / plain returning 7, 0 or the empty string / coroutine / raising coroutine x attribute looked up on the caller's or the owner's loop x called from the caller's "
                        "or the owner's loop; a burst of queued plain calls for ordering; plain and coroutine calls after the owner's loop was stopped and closed; real threads, thread identity recorded inside the method")
     ctx.exhaustive = True
 
